@@ -1012,5 +1012,8 @@ func moveSponsor(txs []*hGenTx, from, to int) {
 	}
 }
 
+// hCompleted: the harness test ran to its end (see TestMain in the race build)
+var hCompleted bool
+
 var _ = utils.ToID
 var _ = internalfees.NewManager
